@@ -235,7 +235,7 @@ def execute_e2e(root, case, decision, plain, answer="y", fault=None):
         if fault == "cut":
             w.fault = {"cut_at": 20000}
         import contextlib
-        with contextlib.redirect_stdout(io.StringIO()):      # (the commands' own chatter)
+        with contextlib.redirect_stdout(io.StringIO()), contextlib.redirect_stderr(io.StringIO()):      # (the commands' own chatter)
             w.run(until=w.done)
         internal = [repr(e)[:100] for _, e in w.internal] + [repr(e)[:100] for e in w.logged]
     except Exception as e:
